@@ -13,7 +13,7 @@ MANIFEST = {
     'text': 'All expression trees with 1..3 operator nodes over the 15 operators (every ordered pair and triple, every shape; '
             'thorough adds all 4-node trees over one operator per rank), each in every spelling (minimal, sign-run-free, fully '
             'parenthesised, spaced with blanks, line breaks, tabs and CR LF, every subtree redundantly wrapped), plus calls/array literals with empty arguments and separator-bearing (also separator-only: "," ")" "(" ";") '
-            'text through a probe function, are parsed by the real parser; exported text, value and received arguments are compared with a reference printer/evaluator.',
+            'text through a probe function, are parsed by the real parser; exported text, value and received arguments are compared with a reference printer/evaluator.' ' Later additions: references as call arguments with blanks right inside the parentheses; leaves .5, 1E+2, 2.50 and ""; tab / CR LF spacings; logical and error constants in every letter case, judged by export and value against the upper-case spelling in seven contexts.',
     'note': 'Trusted: ref/grammar.py printers and ref/scalar.py evaluator; sound sign-run foldings are accepted (DESIGN.md C01 Compare); x%% excluded.',
 }
 RULE = ('tree generator: every tree with n operator nodes over 12 binary + 3 unary operators, leaves 2,3,5,7 in order; '
